@@ -748,15 +748,19 @@ Proof. reflexivity. Qed.
 (* a handler that is waiting for the engine when [pre] ends; whatever happens from deadline_ms = 5000 ms
    after it started waiting on (decisions, store and write results, anything), it returns the context
    error and its complete effect trace is that return: no signature, no transaction, no commitment *)
+(* no history panics the service: the "nothing happens after a panic" clause of [step] is dead *)
+Lemma never_panicked K V W evs : panicked (svc (run K V W evs)) = false.
+Proof. exact (inv_nopanic _ _ (pi_svc _ _ _ _ _ (run_pinv K V W evs))). Qed.
+
 Theorem late_events_no_effect K V W pre after h b t :
   deadline_ms <= t ->
-  panicked (svc (run K V W pre)) = false ->
   nget h (hs (run K V W pre)) = Some (HInSvc b false) ->
   (exists b0, nget h (calls (svc (run K V W pre))) = Some (PHanded b0)) ->
   let S := run K V W (timed_history h t pre after) in
   nget h (hs S) = Some (HDone RCtx) /\ hist h S = [HReturn h RCtx].
 Proof.
-  intros Ht Hp Hh Hc. unfold timed_history. destruct (N.ltb_spec t deadline_ms) as [Hlt|_]; [lia|].
+  intros Ht Hh Hc. pose proof (never_panicked K V W pre) as Hp.
+  unfold timed_history. destruct (N.ltb_spec t deadline_ms) as [Hlt|_]; [lia|].
   cbn zeta. rewrite app_assoc.
   assert (H1 : nget h (hs (run K V W (pre ++ [DeadlineFire h]))) = Some (HDone RCtx)).
   { rewrite (run_app K V W). now apply (deadline_step K V W _ h b). }
@@ -820,4 +824,30 @@ Proof.
   rewrite Ee in Ha. rewrite (arr_final K V W pre (Lookup sid d status_accepted :: post) _ _ Ha') in Ha.
   injection Ha as -> ->. rewrite Hrd in Hrd'. injection Hrd' as <-. subst d.
   exists role, o, b, a, sid, pre, post. repeat split; assumption.
+Qed.
+
+(* ---- headline: what a written commitment implies about the submitted transaction, no history premise --- *)
+Theorem written_implies_settled K addr evs h c :
+  let S := run K rules_validators (node_wiring addr) evs in
+  In (HWrite h c) (heff S) ->
+  (4 <= length (K (Abi.method_sig store_name store_tys)))%nat ->
+  (b_bn (c_bid c) < 9223372036854775808)%Z -> (b_ds (c_bid c) < 9223372036854775808)%Z ->
+  (b_de (c_bid c) < 9223372036854775808)%Z ->
+  wf_bytes (b_tx (c_bid c)) -> wf_bytes (b_sig (c_bid c)) -> wf_bytes (c_sig c) ->
+  (forall amt, Abi.blen (Abi.encode (store_args amt c)) < Abi.two63) ->
+  exists amt cd,
+    (0 < amt < 18446744073709551616)%Z /\ parse_bigint (b_amt (c_bid c)) = Some amt /\
+    In (HSend h addr cd) (heff S) /\ In (HStored h true) (heff S) /\
+    Abi.decode_call store_tys cd =
+    Some (Abi.selector K (Abi.method_sig store_name store_tys),
+          [Abi.VUint64 (Z.to_N amt); Abi.VUint64 (Z.to_N (b_bn (c_bid c))); Abi.VString (b_tx (c_bid c));
+           Abi.VUint64 (Z.to_N (b_ds (c_bid c))); Abi.VUint64 (Z.to_N (b_de (c_bid c)));
+           Abi.VBytes (b_sig (c_bid c)); Abi.VBytes (c_sig c)]).
+Proof.
+  cbn zeta. intros Hin Hk Hbn Hds Hde W1 W2 W3 Hl.
+  destruct (order_node K addr evs h c Hin) as (Hst & amt & Hp & Hsend).
+  destruct (gate_node K addr evs (HWrite h c) Hin eq_refl) as (role & o & b & a & _ & _ & _ & _ & _ & Hv & _ & _ & Hw).
+  assert (Hb : c_bid c = b) by (apply (Hw h c); reflexivity). subst b.
+  destruct (args_validated K c amt Hk Hv Hbn Hds Hde W1 W2 W3 (Hl amt) Hp) as (Ha & Hd).
+  exists amt, (calldata K amt c). repeat split; try assumption; apply Ha.
 Qed.
